@@ -129,6 +129,7 @@ package cache
 //@   requires "path-not-locked-by-caller" pathlock.plInv(fs.pathlock) && !pathLocked(fs, name)
 //@   modifies world(), mapOf(fs.cacheInfo), mapOf(fs.cached), mapOf(fs.pathlock.pathLocks), held(pathlock.plMu(fs.pathlock, name))
 //@   callsite copyFile requires "copy-under-the-path-lock" [C11] pathLocked(fs, name)
+//@   callsite SeekFile requires "source-handle-rewound-to-the-start" [C10] arg1 == 0 && arg2 == io.SeekStart   // the handle that was copied from is handed out: it must be back at offset 0 (found by the mutation sweep)
 //@   callsite Store requires "marked-under-the-path-lock" [C11] pathLocked(fs, name)
 //@   callsite Delete requires "unmarked-under-the-path-lock" [C11] pathLocked(fs, name)
 //@   ensures "path-lock-released" [C11] !pathLocked(fs, name) && pathlock.plInv(fs.pathlock) && pathlock.plOthersSame(fs.pathlock, name)
